@@ -197,6 +197,8 @@ def main(argv=None):
     from contracts import backend as _backend
 
     used = {k for r in results for k in (r.get("kernel_calls") or {})}
+    if used & {"normal", "rademacher"}:
+        used |= {"split", "prng_key"}  # key handling is not logged per call
     tasks2, seen = [], set()
     for k in sorted(used):
         c = _backend.by_kernel().get(k)
@@ -400,7 +402,7 @@ def _shorten(s):
 TRUSTED_COMMON = [
     "CPython + jax.make_jaxpr as the mechanical extractor of the real function's program",
     "vcgen.interp: semantics of the interpreted lax primitives (elementwise by definition, data movement by index tracing with the real primitive)",
-    "kernel contracts (axioms) for qr_r / solve_triu / solve_tril / solve_lu / lstsq_svd / hypot / random.*; validated numerically at the self-check points on every run, not proved; linear solves are memoised up to the sign of the right-hand side (solve(A,-b) = -solve(A,b)). The assumption is about the JAX routine (jnp.linalg.qr/lstsq/solve, jax.scipy.linalg.solve_triangular, jnp.hypot at their default tolerances); the repository's wrapper around it is under a delegation contract (contracts/backend.py: same operands in the same order, documented options, result returned unchanged) that every check discharges for each kernel its units used. The random.* wrappers and qr_r's custom JVP rule (C16) are not covered by delegation contracts",
+    "kernel contracts (axioms) for qr_r / solve_triu / solve_tril / solve_lu / lstsq_svd / hypot / random.*; validated numerically at the self-check points on every run, not proved; linear solves are memoised up to the sign of the right-hand side (solve(A,-b) = -solve(A,b)). The assumption is about the JAX routine (jnp.linalg.qr/lstsq/solve, jax.scipy.linalg.solve_triangular, jnp.hypot at their default tolerances, jax.random.PRNGKey/split/normal/rademacher); the repository's wrapper around it is under a delegation contract (contracts/backend.py: same operands in the same order, documented options, result returned unchanged) that every check discharges for each kernel its units used. qr_r's custom JVP rule is not covered by a delegation contract (C16 has its own contract for it)",
     "specification-only ghost kernels: ghost_inverse (two-sided inverse; its existence is an inherited precondition), ghost_parent (the kernel output a block was cut from), lstsq row-space witness",
     "axioms about elementary functions used in SMT queries: sqrt/abs/sign/min/max definitions, guarded reciprocals, sign and monotonicity facts of real powers, 2-ulp enclosures of logarithms of constants, b^e >= r <=> e log b >= log r for constant b > 1, bracketing of ceil/floor (integrality not modelled)",
     "uninterpreted functions (vector fields, constraints, Taylor-point rules) with uninterpreted Jacobians: instances are treated as independent symbols (no congruence axiom): sound for proofs, counter-models are checked for functional consistency before they are accepted",
